@@ -59,6 +59,9 @@ def configs(tier):
         for simple in (False, True):
             c.append({"kind": "guard", "route": route, "simple": simple})
     c.append({"kind": "neutral"})
+    # the depth the guard compares: average over the covered positions of the locus, gene
+    # and pseudogene alike (reads on the pseudogene only are not "no reads")
+    c.append({"kind": "average"})
     # "no reads in the locus" presupposes that reads elsewhere do not count: the locus
     # test on symbolic read / region intervals and the eligibility flags (shared with C06)
     c.append({"kind": "region"})
@@ -184,6 +187,69 @@ def replay_guard(o):
         calls = {k: [s.get_major_diplotype() for s in v] for k, v in r.items()}
         return True, (f"a BAM without a single read is genotyped as {list(calls.values())} "
                       f"(structure {'supplied by the user' if o['route']=='user' else 'estimated'})")
+
+
+# ------------------------------------------------------------------ average depth
+
+
+def _avg_case(gname, where, depth, npos):
+    import c06
+
+    gene = gengene.load(gname, "hg19")
+    s = c06.new_sample(gene)
+    regs = []
+    if where in ("gene", "both"):
+        regs.append(gene.regions[0]["e2"])
+    if where in ("pseudogene", "both"):
+        regs.append(gene.regions[1]["e2"])
+    norm = {}
+    for rg in regs:
+        for p in range(rg.start, rg.start + npos):
+            norm[p] = [(40, 40)] * depth
+    s._make_coverage(norm, {})
+    return float(s.coverage.average_coverage()), depth, len(norm)
+
+
+def run_average(cfg):
+    res = new_result(cfg)
+    eng = Engine(name="c19a")
+    wi, di, ni, gi = z3.Int("where"), z3.Int("depth"), z3.Int("positions"), z3.Int("gene")
+    places = ["gene", "pseudogene", "both"]
+
+    def run():
+        g = ("GA", "toy")[eng.choose(gi, range(2))]
+        w = places[eng.choose(wi, range(3))]
+        d = eng.choose(di, (1, 3, 30))
+        n = eng.choose(ni, (1, 5, 12))
+        return (g, w, d, n), _avg_case(g, w, d, n)
+
+    k = 0
+    for dec, pc, (case, (avg, d, n)) in eng.explore(run, [], max_paths=1000):
+        k += 1
+        # every covered position has depth d: the average is d (the code divides by
+        # n + 0.1, which must stay a small correction)
+        good = d * n / (n + 0.11) <= avg <= d
+        ob(res, "average: the guard's average depth is the mean over the covered positions "
+                "of the locus (gene or pseudogene)", "holds" if good else "sat")
+        if not good:
+            res["violations"].append({
+                "what": f"average depth of {case[0]} with depth {d} on {n} positions of the "
+                        f"{case[1]} is reported as {avg}", "key": "average",
+                "replay": {"kind": "average", "case": list(case)}})
+    seen = {}
+    for v in res["violations"]:
+        seen.setdefault(v["key"], v)
+    res["violations"] = list(seen.values())
+    res["stats"] = {**dict(eng.stats), "paths": k}
+    res["obligations"] = [{"label": o["label"], "status": o["status"], "secs": 0}
+                          for o in res["obligations"]]
+    return res
+
+
+def replay_average(o):
+    g, w, d, n = o["case"]
+    avg, d, n = _avg_case(g, w, d, n)
+    return not (d * n / (n + 0.11) <= avg <= d), f"average {avg} for depth {d}"
 
 
 # ------------------------------------------------------------------ neutral region
